@@ -92,7 +92,7 @@ fn main() { try { loop { let a = 1; } } catch e { println("caught"); } println("
 fn main() { let n = 0; try { try { throw("x"); } catch e { loop { n = n + 1; } } } catch e2 { println("caught outer"); } println("after"); }`},
 	{name: "sleep-loop", endless: true, check: consecutive("s"), src: `
 fn main() { let i = 0; loop { println("s", i); i = i + 1; time.sleep(0.05); } }`},
-	{name: "sleep-long", endless: true, check: noOutput, src: `
+	{name: "sleep-long", endless: false, check: noOutput, src: `
 fn main() { try { time.sleep(30.0); } catch e { println("caught"); } println("after"); }`},
 	{name: "for-print", endless: true, check: consecutive("i"), src: `
 fn main() { for i in 0..1000000 { println("i", i); } }`},
